@@ -73,3 +73,72 @@ Theorem model_passes_spec :
     out_ok p (processed ++ rest) (tick p order) = true.
 Proof. exact Proofs.C35.model_passes_spec. Qed.
 Print Assumptions model_passes_spec.
+
+(* ---- ONE signingDoneCheck used for several attempts (signing retry loop: one check per
+   signing, listen() per attempt).  [sdc] is the object (arguments of the last listen(),
+   doneSigners), [do_listen] / [do_msgs] its two operations as the code is written,
+   [run_attempts d earlier] the object after a history of earlier attempts started in ANY
+   state d. ---- *)
+
+(* no state crosses attempts: at every point of an attempt doneSigners is what a fresh object
+   would hold after the messages of this attempt alone *)
+Theorem no_state_across_attempts :
+  forall d earlier p h,
+    d_store (do_msgs (do_listen p (run_attempts d earlier)) h) = listen p h.
+Proof. exact Proofs.C35.no_state_across_attempts. Qed.
+Print Assumptions no_state_across_attempts.
+
+(* a multi-attempt history's stores = map of the single-attempt function *)
+Theorem history_is_map :
+  forall l d, stores_of d l = map (fun ph => listen (fst ph) (snd ph)) l.
+Proof. exact Proofs.C35.history_is_map. Qed.
+Print Assumptions history_is_map.
+
+(* the correspondence check runs the object model over the whole history; that equals checking
+   every attempt against the single-attempt function *)
+Theorem agree_from_is_map :
+  forall l d, agree_from d l = forallb agree1 l.
+Proof. exact Proofs.C35.agree_from_is_map. Qed.
+Print Assumptions agree_from_is_map.
+
+(* the property for every attempt of every history on one object: a result is reported for THIS
+   attempt only if exactly its included members confirmed, among the messages delivered during
+   this attempt, with this attempt's number / message / that signature within its timeout;
+   the end block is the latest of theirs *)
+Theorem history_done_only_when_all_confirmed :
+  forall d earlier p h order s e,
+    NoDup (p_members p) ->
+    Permutation (d_store (do_msgs (do_listen p (run_attempts d earlier)) h)) order ->
+    tick p order = Done s e ->
+    (forall x, In x (map fst order) <-> In x (p_members p)) /\
+    (forall mem, In mem (p_members p) ->
+                 exists c, In c h /\ confirms p s mem c = true /\ m_end c <= e) /\
+    ((p_members p = [] /\ s = None /\ e = 0) \/
+     (exists mem c, In mem (p_members p) /\ In c h /\ confirms p s mem c = true /\ m_end c = e)).
+Proof. exact Proofs.C35.history_done_only_when_all_confirmed. Qed.
+Print Assumptions history_done_only_when_all_confirmed.
+
+Theorem history_model_passes_spec :
+  forall d earlier p processed rest order,
+    NoDup (p_members p) ->
+    Permutation (d_store (do_msgs (do_listen p (run_attempts d earlier)) processed)) order ->
+    out_ok p (processed ++ rest) (tick p order) = true.
+Proof. exact Proofs.C35.history_model_passes_spec. Qed.
+Print Assumptions history_model_passes_spec.
+
+(* the executable property of a whole case (what SpecFail negates): every attempt's observed
+   result is backed by confirmations of all its included members among its own messages *)
+Theorem spec_ok_sound :
+  forall c,
+    spec_ok c = true ->
+    forall a, In a (c_attempts c) ->
+      c_out a <> Panic /\
+      forall s e, c_out a = Done s e ->
+        let p := c_params a in
+        let h := c_phase1 a ++ c_phase2 a in
+        (forall mem, In mem (p_members p) ->
+                     exists m, In m h /\ confirms p s mem m = true /\ m_end m <= e) /\
+        ((p_members p = [] /\ s = None /\ e = 0) \/
+         (exists mem m, In mem (p_members p) /\ In m h /\ confirms p s mem m = true /\ m_end m = e)).
+Proof. exact Proofs.C35.spec_ok_sound. Qed.
+Print Assumptions spec_ok_sound.
